@@ -628,16 +628,20 @@ func (g *Gen) scopeAt(b *ssa.BasicBlock, edge *ssa.BasicBlock, st *State) map[st
 		if phi.Comment == "" {
 			continue
 		}
+		name := phi.Comment
+		if name == "rangeint.iter" {
+			name = "rangeint"
+		}
 		if edge != nil {
 			for i, p := range b.Preds {
 				if p == edge {
 					if v, ok := g.tryVal(phi.Edges[i]); ok {
-						vars[phi.Comment] = v
+						vars[name] = v
 					}
 				}
 			}
 		} else if v, ok := g.vals[phi]; ok {
-			vars[phi.Comment] = v
+			vars[name] = v
 		}
 	}
 	return vars
